@@ -135,6 +135,12 @@ func (d *dir) RepoGet(ctx context.Context, repoStr string) (Repo, error) {
 	if stringsHasAny(strings.Split(repoStr, "/"), indexFile, layoutFile, blobsDir) {
 		return nil, fmt.Errorf("repo %s cannot contain %s, %s, or %s%.0w", repoStr, indexFile, layoutFile, blobsDir, types.ErrRepoNotAllowed)
 	}
+	for _, part := range strings.Split(repoStr, "/") {
+		// a path component longer than the filesystem allows cannot be stored, refuse it as an invalid name instead of failing later
+		if len(part) > 255 {
+			return nil, fmt.Errorf("repo %s contains a path component longer than 255 bytes%.0w", repoStr, types.ErrRepoNotAllowed)
+		}
+	}
 	dr := dirRepo{
 		wgBlock: make(chan struct{}, 1),
 		path:    filepath.Join(d.root, repoStr),
